@@ -11,8 +11,10 @@ mod evlog;
 mod model;
 mod monitors;
 mod net;
+mod puppet;
 mod result;
 mod scen_cluster;
+mod scen_puppet;
 mod world;
 
 use std::collections::HashMap;
@@ -55,6 +57,7 @@ fn main() {
         let seed = seed0 + k;
         match workload.as_str() {
             "cluster" => scen_cluster::run(&class, seed, &params).print(),
+            "puppet" => scen_puppet::run(&class, seed, &params).print(),
             other => {
                 eprintln!("unknown workload {}", other);
                 std::process::exit(2);
